@@ -5,7 +5,8 @@
 //! neighbours with near-equal scores may swap).
 //! Correspondence: the Lean model (`SL.TK.search` fed by `SL.Bm25`/`SL.Quant`) for each of the
 //! three strategies against the implementation, plus the model-side monitors (`bounds_ok` on
-//! hook-free queries, `refines`: cursor loop = decision rule, `repaired_bmw_eq_brute`).
+//! hook-free queries, `seg_ok_*`: the premise of `search_pruned_eq_bm25`, `refines_*`: cursor loop =
+//! decision rule).
 use crate::idx;
 use crate::proto::Driver;
 use crate::rng::Rng;
@@ -43,10 +44,36 @@ pub fn schema_json() -> Value {
 /// `[(id, score)]` of a response
 pub type Ranking = Vec<(String, f64)>;
 
+/// documents that tie exactly (bit-equal scores) in BOTH lists must appear in the same relative
+/// order in both: exact ties are resolved by segment and document order, deterministically
+pub fn tie_order_consistent(a: &Ranking, b: &Ranking) -> bool {
+  use std::collections::HashMap;
+  let sb: HashMap<&String, u64> = b.iter().map(|h| (&h.0, h.1.to_bits())).collect();
+  let sa: HashMap<&String, u64> = a.iter().map(|h| (&h.0, h.1.to_bits())).collect();
+  let mut ga: HashMap<(u64, u64), Vec<&String>> = HashMap::new();
+  for h in a.iter() {
+    if let Some(y) = sb.get(&h.0) {
+      ga.entry((h.1.to_bits(), *y)).or_default().push(&h.0);
+    }
+  }
+  let mut gb: HashMap<(u64, u64), Vec<&String>> = HashMap::new();
+  for h in b.iter() {
+    if let Some(x) = sa.get(&h.0) {
+      gb.entry((*x, h.1.to_bits())).or_default().push(&h.0);
+    }
+  }
+  ga.iter().all(|(k, v)| gb.get(k).map(|w| w == v).unwrap_or(false))
+}
+
 /// the comparison rule of DESIGN §3.5: same length, scores pairwise within `rel`, and within
 /// each run of near-equal scores the same set of ids (the last run may be cut by the limit, in
-/// which case its members may differ)
-pub fn same_ranking(a: &Ranking, b: &Ranking, limit: usize, rel: f64) -> bool {
+/// which case its members may differ).  Exact ties are not rounding noise:
+/// * `strict` (two runs of the IMPLEMENTATION, whose per-document scores are bit-identical
+///   across strategies: every leaf sums at most two terms): a run that is bit-equal in both
+///   lists with the same score must agree position by position, also when cut by the limit;
+/// * otherwise (model in f64 vs implementation in f32): documents tying exactly in both lists
+///   must keep their relative order (`tie_order_consistent`).
+pub fn same_ranking_mode(a: &Ranking, b: &Ranking, limit: usize, rel: f64, strict: bool) -> bool {
   if a.len() != b.len() {
     return false;
   }
@@ -62,10 +89,7 @@ pub fn same_ranking(a: &Ranking, b: &Ranking, limit: usize, rel: f64) -> bool {
       e += 1;
     }
     let cut = e == a.len() && a.len() >= limit;
-    // exact ties are resolved deterministically (segment, then document order): when all scores
-    // of the run are bit-equal in both lists the ids must agree position by position, also in
-    // a run that is cut by the limit; only genuinely near-equal scores may swap
-    let exact = a[s..e].iter().all(|h| h.1 == a[s].1) && b[s..e].iter().all(|h| h.1 == b[s].1);
+    let exact = strict && a[s].1 == b[s].1 && a[s..e].iter().all(|h| h.1 == a[s].1) && b[s..e].iter().all(|h| h.1 == b[s].1);
     if exact {
       if (s..e).any(|i| a[i].0 != b[i].0) {
         return false;
@@ -81,16 +105,29 @@ pub fn same_ranking(a: &Ranking, b: &Ranking, limit: usize, rel: f64) -> bool {
     }
     s = e;
   }
-  true
+  strict || tie_order_consistent(a, b)
+}
+
+/// model vs implementation
+pub fn same_ranking(a: &Ranking, b: &Ranking, limit: usize, rel: f64) -> bool {
+  same_ranking_mode(a, b, limit, rel, false)
 }
 
 pub fn ranking_json(r: &Ranking) -> Value {
   Value::Array(r.iter().map(|(i, s)| json!([i, s])).collect())
 }
 
+/// score of a model hit: the exact double (`bits`), so that equal model scores mean bit-equal
+pub fn model_score(h: &Value) -> f64 {
+  match h["bits"].as_u64() {
+    Some(b) => f64::from_bits(b),
+    None => h["score"].as_f64().unwrap_or(f64::NAN),
+  }
+}
+
 pub fn model_ranking(v: &Value) -> Ranking {
   v.as_array()
-    .map(|a| a.iter().map(|h| (h["id"].as_str().unwrap_or("?").to_string(), h["score"].as_f64().unwrap_or(f64::NAN))).collect())
+    .map(|a| a.iter().map(|h| (h["id"].as_str().unwrap_or("?").to_string(), model_score(h))).collect())
     .unwrap_or_default()
 }
 
@@ -658,38 +695,22 @@ impl Prop for C09 {
     s.count(&format!("limit.{}", if limit <= 5 { "1-5" } else if limit <= 20 { "6-20" } else { "21-50" }));
     s.count(&format!("block.{}", match bs.as_u64() { None => "default", Some(x) if x <= 3 => "1-3", Some(x) if x <= 32 => "4-32", _ => "33-300" }));
 
-    // ---- finder: implementation against itself.  The property failure is established on the
-    // implementation alone (wand/bmw vs bm25).  The *signature* additionally says whether the
-    // wrong result is the one the recorded defect mechanism produces (the mechanism model returns
-    // the same wrong hits): only then does it match a known finding; any other wrong result of
-    // the same strategy is a different violation.
-    let wand_ok = same_ranking(&w, &b, limit, 2e-5);
-    let bmw_ok = same_ranking(&m, &b, limit, 2e-5);
+    // ---- finder: implementation against itself (no model involved)
+    let wand_ok = same_ranking_mode(&w, &b, limit, 2e-5, true);
+    let bmw_ok = same_ranking_mode(&m, &b, limit, 2e-5, true);
     let total_docs: usize = segments.iter().map(|sg| sg.as_array().map(|a| a.len()).unwrap_or(0)).sum();
     if limit >= total_docs {
       s.count("limit_ge_corpus");
     }
-    if (!wand_ok || !bmw_ok) && limit >= total_docs {
-      // the per-segment heap (limit+1) can never fill: the threshold stays 0 and nothing may
-      // be pruned, so even the recorded pruning defects cannot explain a difference
-      s.fail("prune.heap-never-full", "wand/bmw differ from bm25 although the limit exceeds the number of documents (no pruning decision can be taken)", case, observed(&imp));
-    } else if !wand_ok || !bmw_ok {
+    if !wand_ok || !bmw_ok {
       let obs = observed(&imp);
-      let model_ok = model["ok"] == json!(true) && model["negative"] != json!(true);
-      let explained = |ex: &str, r: &Ranking| -> bool {
-        model_ok
-          && (same_ranking(&model_ranking(&model[ex]), r, limit, 2e-5)
-            || model[if ex == "wand" { "knife_wand" } else { "knife_bmw" }] == json!(true))
-      };
-      let all_explained = (wand_ok || explained("wand", &w)) && (bmw_ok || explained("bmw", &m));
-      if hook && all_explained {
-        s.fail("prune.score-hook", "wand/bmw differ from bm25 for a query whose score is changed by function_score/script_score/rank_feature (pruning uses BM25 bounds although a score hook is active)", case, obs);
+      if limit >= total_docs {
+        // the per-segment heap (limit+1) can never fill: the threshold stays 0, nothing may be pruned
+        s.fail("prune.heap-never-full", "wand/bmw differ from bm25 although the limit exceeds the number of documents (no pruning decision can be taken)", case, obs);
       } else if hook {
-        s.fail("prune.score-hook.unexplained", "wand/bmw differ from bm25 for a query with a score hook, and not in the way the recorded defect (BM25 bounds under a score hook) predicts", case, obs);
-      } else if wand_ok && !bmw_ok && all_explained {
-        s.fail("bmw.block-bound", "bmw differs from bm25 on a hook-free query while wand agrees (bound of the cursor's block is not a bound for later blocks)", case, obs);
+        s.fail("prune.score-hook", "wand/bmw differ from bm25 for a query whose score is changed by function_score/script_score/rank_feature (pruning must be off while a score hook is active)", case, obs);
       } else if wand_ok && !bmw_ok {
-        s.fail("bmw.differs.unexplained", "bmw differs from bm25 on a hook-free query while wand agrees, and not in the way the recorded block-bound defect predicts", case, obs);
+        s.fail("bmw.block-bound", "bmw differs from bm25 on a hook-free query while wand agrees (block maxima used as a bound for documents they do not cover)", case, obs);
       } else {
         s.fail("wand.differs", "wand differs from bm25 on a hook-free query", case, obs);
       }
@@ -710,14 +731,11 @@ impl Prop for C09 {
     if !hook && model["bounds_ok"] != json!(true) {
       s.disagree("monitor.bounds_ok", case, json!("hook-free query"), json!({"bounds_ok": model["bounds_ok"]}));
     }
-    if model["valid_bounds"] != json!(true) || model["wf"] != json!(true) {
-      s.disagree("monitor.valid_bounds", case, json!(null), json!({"valid_bounds": model["valid_bounds"], "wf": model["wf"]}));
-    }
-    if model["refines"] != json!(true) {
-      s.disagree("monitor.wandLoop_eq_wandRule", case, json!(null), json!({"refines": model["refines"]}));
-    }
-    if model["block_bounds_ok"] == json!(true) && model["repaired_bmw_eq_brute"] != json!(true) {
-      s.disagree("monitor.repaired_bmw", case, json!(null), json!({"repaired_bmw_eq_brute": false}));
+    // the decidable premise of `search_pruned_eq_bm25` must hold on every case, for both strategies
+    for key in ["wf", "valid_bounds", "valid_block_bounds", "blocks_ok", "seg_ok_wand", "seg_ok_bmw", "refines_wand", "refines_bmw"] {
+      if model[key] != json!(true) {
+        s.disagree(&format!("monitor.{key}"), case, json!(null), json!({key: model[key]}));
+      }
     }
     if model["bounds_ok"] == json!(true) {
       s.count("bounds_ok");
@@ -725,15 +743,6 @@ impl Prop for C09 {
     for (ex, r) in [("bm25", &b), ("wand", &w), ("bmw", &m)] {
       let mr = model_ranking(&model[ex]);
       if same_ranking(&mr, r, limit, 2e-5) {
-        continue;
-      }
-      let knife = match ex {
-        "wand" => model["knife_wand"] == json!(true),
-        "bmw" => model["knife_bmw"] == json!(true),
-        _ => false,
-      };
-      if knife {
-        s.count("knife_edge_not_compared");
         continue;
       }
       s.disagree(&format!("topk.{ex}"), case, ranking_json(r), ranking_json(&mr));
@@ -746,6 +755,6 @@ impl Prop for C09 {
     }
   }
   fn finish(&self, _tier: Tier, s: &mut Summary) {
-    s.notes.push("finder compares execution=wand|bmw with execution=bm25 on the same reader; correspondence compares each strategy with the Lean model (SL.TK.search) and checks the monitors bounds_ok / refines / repaired_bmw".into());
+    s.notes.push("finder compares execution=wand|bmw with execution=bm25 on the same reader; correspondence compares each strategy with the Lean model (SL.TK.search) and checks the monitors bounds_ok / seg_ok / refines".into());
   }
 }
